@@ -364,7 +364,13 @@ def run(plan, ch, want_log=False):
                 if K.cur().proc.name != "shm" or ".pool" not in K.cur().name:
                     return False
                 ncreate["n"] += 1
-                return ncreate["n"] == target
+                if ncreate["n"] == target:
+                    # the page-in's segment is never created: from here on nothing of it is resident (the store learns that in the
+                    # failure callback, which runs before the job has ended)
+                    mon.resident.pop(name, None)
+                    K.probe("pagein_left_no_segment")
+                    return True
+                return False
             K.cfg["shm_enomem"] = enomem
     K.handlers["udp_recvfrom"].append(mon.on_recv)
     K.handlers["udp_sendto"].append(mon.on_send)
